@@ -15,7 +15,7 @@ specification.  Assumed contracts (A-INT, A-FLOAT, A-STRPTIME, A-RE): vfy/pyvc/s
 """
 import z3
 
-from driver import Property, Task
+from driver import Bounded, Property, Task
 from pyvc.core import And, Eq, Implies, Not, Or, SBool, SStr
 from pyvc.interp import Config, Obj, PyDict, PyRaise, Builtin, PyList
 from pyvc import strings as S
@@ -301,6 +301,32 @@ def violates(rp, obs):
     return False
 
 
+def sweep_post(o):
+    """Driver-side oracle of the bounded stand-in: each native observation against the must / may languages."""
+    viol = []
+    for ob in o.get("observations", []):
+        case = {"ftype": ob["ftype"], "tag": "999", "value": ob["value"]}
+        if len(ob["value"]) > 2000:
+            continue  # (kept in the sweep for robustness of the validators, too long for a membership query)
+        for name in ("accepts_only_lexical_space", "rejects_nothing_of_lexical_space", "only_message_error"):
+            rp = {"native_case": case, "obligation": ob["ftype"] + "." + name}
+            if violates(rp, ob):
+                viol.append({"case": case, "observed": ob, "clauses": [name], "replay_family": "c19",
+                             "note": "round %d of the sweep (every type x every candidate, one interpreter)" % ob["round"]})
+        if len(viol) >= 20:
+            break
+    o = dict(o)
+    o["violations"] = viol
+    o.pop("observations", None)
+    return o
+
+
+FALLBACK = Bounded(
+    "types_x_candidates_two_rounds", "c19_sweep", {}, {},
+    "24 datatypes x ~60 candidate strings (numbers with sign / space / '_' / exponent / non-ASCII digits / trailing "
+    "newline / 320 digits, codes, dates and times in and out of layout) x 2 rounds in one interpreter",
+    only_when_undecided=True, post=sweep_post)
+
 TYPES = ["INT", "LENGTH", "SEQNUM", "NUMINGROUP", "DAYOFMONTH", "FLOAT", "QTY", "PRICE", "PRICEOFFSET", "AMT", "PERCENTAGE",
          "BOOLEAN", "CHAR", "STRING", "MULTIPLESTRINGVALUE", "MULTIPLEVALUESTRING", "CURRENCY", "COUNTRY", "EXCHANGE",
          "UTCTIMESTAMP", "UTCDATEONLY", "LOCALMKTDATE", "UTCTIMEONLY", "MONTHYEAR", "DATA"]
@@ -316,6 +342,7 @@ TASKS = [Task(t, type_harness(t), lex_cfg, FUNCS, native="c19", timeout_ms=20000
 
 PROPERTY = Property(
     "C19", TASKS,
+    bounded=[FALLBACK],
     assumptions=[
         "A-INT / A-FLOAT / A-STRPTIME / A-RE: the languages CPython's int(), float(), datetime.strptime and re.search('\\\\W+') "
         "accept, as written in vfy/pyvc/strings.py (white space, sign, '_' separators, Unicode decimal digits, exponents, "
